@@ -33,7 +33,9 @@ func (l *IDLit) proto() *pb.FeatureIDProto {
 	return &pb.FeatureIDProto{Type: t, Namespace: l.NS, Value: v}
 }
 
-func pointProto(p [2]int64) *pb.PointProto { return &pb.PointProto{LatE7: int32(p[0]), LngE7: int32(p[1])} }
+func pointProto(p [2]int64) *pb.PointProto {
+	return &pb.PointProto{LatE7: int32(p[0]), LngE7: int32(p[1])}
+}
 
 func polylineProto(pts [][2]int64) *pb.PolylineProto {
 	p := &pb.PolylineProto{Points: make([]*pb.PointProto, len(pts))}
